@@ -134,6 +134,11 @@ for pol in ("fifo", "lru"):
     for ng in (1, 2):
         add(fid, "gate", "async", policy=pol, limit=2, tags=("t",), gates=ng)
         fid += 1
+# a suspended or dropped call whose entry invalidate_on called stale must leave that entry alone
+for pol in ("fifo", "lru"):
+    for lim in (None, 2):
+        add(fid, "gate", "async", policy=pol, limit=lim, tags=("t",), gates=1, inval_on=True)
+        fid += 1
 # --- metadata corpus: every assignment of tags/events/dependencies ⊆ {x, y}
 fid = 5000
 SUBS = [(), ("x",), ("y",), ("x", "y")]
